@@ -578,6 +578,31 @@ impl Ind {
     pub fn debug(&self) -> String {
         each!(self, i => format!("{:?}", i))
     }
+    /// Display and Debug under the formatter's other settings (width narrower and wider than the text, fill,
+    /// alignment, precision, sign, alternate): returns the plain text and how many of the padded renderings
+    /// do not contain it
+    pub fn display_variants(&self) -> (String, usize) {
+        each!(self, i => {
+            let plain = format!("{}", i);
+            let all = [
+                format!("{:1}", i),
+                format!("{:<10}", i),
+                format!("{:>3}", i),
+                format!("{:^7}", i),
+                format!("{:*<60}", i),
+                format!("{:>60}", i),
+                format!("{:^61}", i),
+                format!("{:.3}", i),
+                format!("{:+}", i),
+                format!("{:08}", i),
+                format!("{:#}", i),
+            ];
+            let _ = format!("{:#?}", i);
+            let _ = format!("{:10?}", i);
+            let bad = all.iter().filter(|s| !s.contains(&plain)).count();
+            (plain, bad)
+        })
+    }
     /// Period trait (None where not implemented)
     pub fn period(&self) -> Option<usize> {
         match self {
@@ -617,6 +642,47 @@ impl Ind {
     #[cfg(feature = "serde")]
     pub fn ser_size(&self) -> Result<u64, String> {
         each!(self, i => bincode::serialized_size(i).map_err(|e| e.to_string()))
+    }
+    /// `reader`: through `bincode::deserialize_from` (an `io::Read` source, nothing to borrow from) instead of
+    /// `bincode::deserialize`; `framed`: the indicator sits between two other values in the same payload (as it
+    /// would inside a user's checkpoint struct), which must come back intact — a deserializer that consumes
+    /// more or fewer bytes than the serializer wrote corrupts its neighbours, not itself
+    #[cfg(feature = "serde")]
+    pub fn roundtrip_via(&self, reader: bool, framed: bool) -> Result<Ind, String> {
+        fn d<T: serde::de::DeserializeOwned>(b: &[u8], reader: bool) -> Result<T, String> {
+            if reader {
+                let mut src: &[u8] = b;
+                let v = bincode::deserialize_from(&mut src).map_err(|e| format!("deserialize_from(reader): {}", e))?;
+                if !src.is_empty() {
+                    return Err(format!("{} bytes of the payload were left unread", src.len()));
+                }
+                Ok(v)
+            } else {
+                bincode::deserialize(b).map_err(|e| e.to_string())
+            }
+        }
+        const HEAD: u64 = 0x1122_3344_5566_7788;
+        const TAIL: (u64, f64) = (0xA5A5_5A5A_DEAD_BEEF, -123.456);
+        macro_rules! rt {
+            ($($v:ident),*) => {
+                match self {
+                    $( Ind::$v(i) => {
+                        if framed {
+                            let bytes = bincode::serialize(&(HEAD, i, TAIL)).map_err(|e| e.to_string())?;
+                            let (h, r, t): (u64, _, (u64, f64)) = d(&bytes, reader)?;
+                            if h != HEAD || t.0 != TAIL.0 || t.1.to_bits() != TAIL.1.to_bits() {
+                                return Err(format!("values serialized next to the indicator in the same payload came back changed: head {:#x} tail {:?}", h, t));
+                            }
+                            Ind::$v(r)
+                        } else {
+                            let bytes = bincode::serialize(i).map_err(|e| e.to_string())?;
+                            Ind::$v(d(&bytes, reader)?)
+                        }
+                    } )*
+                }
+            };
+        }
+        Ok(rt!(Sma, Ema, Wma, Sd, Mad, Rsi, Min, Max, FastStoch, SlowStoch, Tr, Atr, Macd, Ppo, Cci, Er, Bb, Ce, Kc, Roc, Mfi, Obv))
     }
     #[cfg(feature = "serde")]
     pub fn de(k: Kind, bytes: &[u8]) -> Result<Ind, String> {
